@@ -24,6 +24,8 @@ SRC = {
     9: "def oracle(x: Qint[2]) -> Qint[2]:\n    return x ^ 1",
     10: "def bvf(x: Qint[2]) -> bool:\n    return x[0] ^ x[1]",
     11: "def ast2ast(a: bool, b: bool) -> bool:\n    return a or b",
+    12: "def fx(a: Qfixed[1,2]) -> bool:\n    return a == 1.0",
+    13: "def fc(a: Qchar) -> bool:\n    return a == '1'",
 }
 
 
@@ -165,10 +167,10 @@ def run(pid):
     use_repo()  # the parent imports the library and does nothing else: children are fresh interpreters
     with Scratch("C10") as sc:
         cfg = "SPECIFICATION Spec\nCONSTANTS MaxLen = %d\n MaxLive = 3\n Progs = {%s}\nINVARIANT Emit\nCHECK_DEADLOCK FALSE\n"
-        r = tlc.run_model("Session", cfg % (2, "1,2,3,4,5,6,7,8,9,10,11"), sc, workers=8, timeout=900, tags=("S",), heap="6g")
+        r = tlc.run_model("Session", cfg % (2, "1,2,3,4,5,6,7,8,9,10,11,12,13"), sc, workers=8, timeout=900, tags=("S",), heap="6g")
         hists = [json.loads(v[1]) for v in r["prints"]["S"]]
         gst = dict(r["stats"])
-        r3 = tlc.run_model("Session", cfg % (3, "1,2,3,4,7,9,11" if quick else "1,2,3,4,5,6,7,8,9,10,11"), sc, workers=8, timeout=1800, tags=("S",), heap="8g")
+        r3 = tlc.run_model("Session", cfg % (3, "1,2,3,4,7,9,11,12" if quick else "1,2,3,4,5,6,7,8,9,10,11,12,13"), sc, workers=8, timeout=1800, tags=("S",), heap="8g")
         h3 = [h for h in (json.loads(v[1]) for v in r3["prints"]["S"]) if len(h) == 3]
         for k in ("generated", "distinct"):
             gst[k] = gst.get(k, 0) + r3["stats"].get(k, 0)
